@@ -80,6 +80,8 @@ def cases(tier, seed):
             yield {"kind": "functor_map", "workers": w, "slow_value": 10 + pos, "slow_s": 0.2,
                    "calls": [{"n": n, "cs": cs}]}
     yield {"kind": "functor_map", "workers": -1, "calls": [{"n": 5, "cs": 1}, {"n": 40, "cs": 3}]}
+    # the FIRST item is the slowest of a long input: everything else is held back in the reorder buffer and released in one run
+    yield {"kind": "functor_map", "workers": 2, "slow_value": 10, "slow_s": 1.5, "calls": [{"n": 3000, "cs": 1}]}
     # the input is any iterable: sized ones that are not sequences (dict = its keys, set-like views, deque), tuples, iterators
     for shape in ("dict", "dict-keys", "deque", "tuple", "iter", "defaultdict"):
         for n, cs in ((5, 2), (1, 1), (0, 3)):
